@@ -120,13 +120,13 @@ FAMILIES = {
         shards=[["ds"], ["cached"], ["with"], ["fnapp"]],
         shard_defs={"ds": "SK_ds", "cached": "SK_cached", "with": "SK_with", "fnapp": "SK_leafish"}),
     "failing": dict(
-        consts=dict(Raises="FR_Raises", Kinds="FR_Kinds", Paths="FR_Paths", Consts="FR_Consts", Tmpls="None0",
+        consts=dict(Raises="FR_Raises", Kinds="FR_Kinds", Paths="FR_Paths", Consts="FR_Consts", Tmpls="FR_Tmpls",
                     Fns="FR_Fns", Bodies="FR_Bodies", DispVals="FR_Disp", Preds="FR_Preds", Presets="None0",
                     MapPaths="None0", Leaves="FR_Leaves", Cbs="FR_Cbs", EffSets="FR_Effs"),
         sharing=False,
         runs={"quick": [dict(mode="bfs", max_nodes=3), dict(mode="sim", max_nodes=5, min_nodes=3, num=8000, depth=16, procs=8)],
               "thorough": [dict(mode="bfs", max_nodes=4), dict(mode="sim", max_nodes=6, min_nodes=3, num=40000, depth=18, procs=12)]},
-        shards=[["ds"], ["cached"], ["apply"], ["switch"], ["coalesce"], ["coll"], ["fnapp"], ["bind"], ["case"]],
+        shards=[["ds"], ["cached"], ["apply"], ["switch"], ["coalesce"], ["coll"], ["fnapp", "tmpl", "opt"], ["bind"], ["case"]],
         shard_defs={"ds": "SK_ds", "cached": "SK_cached", "apply": "SK_apply", "switch": "SK_switch", "bind": "SK_bind",
                     "case": "SK_case", "coalesce": "SK_coalesce", "coll": "SK_coll", "fnapp": "SK_leafish"}),
     "failing4": dict(
